@@ -463,8 +463,15 @@ func parsePossibilityStage(input *input, stageSet *StageSet) error {
 			if stage.Not {
 				return errors.New("Double-negation (!!) of a single Stage is not permitted :(")
 			}
-			stage.Not = !stage.Not
+			if stage.Name != "" {
+				return errors.New("A Stage can only be negated in front of its name")
+			}
+			stage.Not = true
+			continue
 		case '>', ' ', '\t', '\r', '\n': /* Let our parent deal with these */
+			if stage.Name == "" {
+				return errors.New("Negation without a Stage name")
+			}
 			stageSet.Stages = append(stageSet.Stages, stage)
 			return nil
 		}
